@@ -35,6 +35,18 @@ CHECKS = {
          "fresh parser per input"),
  "C19": (E2, "6/C19", "every word sequence up to 2 (3 thorough) words x spellings x spacing: parser pairs vs independent reader, and G1/G92/G28/G2 through the real hook vs reference printer",
          "numbers without exponent; G92 X/Y/Z value read back sign-agnostically (D16)"),
+ "C06": (E1, "6/C06", "all histories over deferred codes of every mode, scripts configured through the real settings, and the four ways an episode ends, to fix-point; every command emitted at an episode boundary must be explained by the reference accounting",
+         "scripts use codes that are not themselves deferred; merged commands compared by RS274 reading"),
+ "C07": (E1 + "; " + E2, "6/C07", "depth-bounded value-stress histories (tiny/huge values, relative round-off, inch) with a strict grammar on every synthesised command and exponent-blind reference printers, plus a decade x mantissa grid through every formatting site",
+         "depth-bounded by design (values drift); grid 1e-12..1e17"),
+ "C08": (E1, "6/C08", "product exploration of two real plugins on the same abstract path under two encodings (inch / relative / translated; G92 re-basing in a dedicated known-finding scenario), switch at every position; decision class, episode flag and physical position compared per step",
+         "margin >= 0.5 mm from borders; position tolerance 1e-4 mm"),
+ "C10": (E1, "6/C10", "every state reachable within the depth bound is followed by print-started on a copy and compared with a freshly initialised plugin: canonical state equality plus all probe programs up to length 2 (3 thorough) giving identical hook outputs",
+         "probes start with G28; 12 probe commands"),
+ "C14": (E1, "6/C14", "all histories with enable/disable/unmatched/streaming @-commands at arbitrary points under default and custom patterns, to fix-point; reference flag from the configured patterns; C01/C03 obligations after re-enabling",
+         "sent commands are re-fed through the queuing hook as MachineCom does; disable inside an episode in G91 is known finding D17 (dedicated scenario)"),
+ "C20": (E2, "6/C20", "every file of up to 2 lines (3 thorough; 3 for one live state in quick) over a 24-line alphabet x EOL x terminator x 4 live states, against a twin plugin driven through the live hooks",
+         "process_line(str) is the observation point; canonical upper-case command spellings"),
 }
 PENDING = ["C02", "C06", "C07", "C08", "C09", "C10", "C11", "C12", "C13", "C14", "C15", "C16", "C17", "C18", "C19", "C20"]
 
